@@ -35,7 +35,8 @@ package mp4
 //@ func DecodeUnknownSR
 //@   ensures[C01] result1 == nil && sr.(*bits.FixedSliceReader).err == nil ==> ghost(sr).tr == unknownBody(result0.(*UnknownBox), old(ghost(sr).tr))
 //@ func (*UnknownBox).EncodeSW
-//@   ensures[C01] result == nil && sw.(*bits.FixedSliceWriter).accError == nil ==> ghost(sw).tr == unknownBody(b, trHdr(old(ghost(sw).tr), uint32(b.Size()), b.Type()))
+// (the header is written back in the form it was read: 8 bytes, or 16 bytes with the 64-bit size for a box read with a largesize header)
+//@   ensures[C01] result == nil && sw.(*bits.FixedSliceWriter).accError == nil ==> ghost(sw).tr == unknownBody(b, ite(b.largeSize, trApp(trApp(trApp(old(ghost(sw).tr), chU(32, uint32(1))), chBytes(b.name)), chU(64, b.size)), trHdr(old(ghost(sw).tr), uint32(b.size), b.name)))
 
 // ---- vmhd
 // (value-parameter forms: the decoder's b is a struct variable, not a pointer)
